@@ -457,6 +457,18 @@ class simplify_chained_calls(FuncADLNodeTransformer):
                 return self.visit(func.body)
         elif _is_method_call_on_first(call_node):
             return self.select_method_call_on_first(call_node)
+        elif isinstance(call_node.func, ast.Attribute):
+            # A method call: `visit_Attribute` is for reading an attribute (it moves the read
+            # inside a `First`), the method of a call is left attached to its object.
+            obj = self.visit(call_node.func.value)
+            method = ast.Attribute(value=obj, attr=call_node.func.attr, ctx=ast.Load())
+            return ast.Call(
+                func=method,
+                args=[self.visit(a) for a in call_node.args],
+                keywords=[
+                    ast.keyword(arg=k.arg, value=self.visit(k.value)) for k in call_node.keywords
+                ],
+            )
         else:
             return FuncADLNodeTransformer.visit_Call(self, call_node)
 
@@ -608,10 +620,13 @@ class simplify_chained_calls(FuncADLNodeTransformer):
         Otherwise, we need to make sure to make a new version of the Attribute so it does
         not get reused'
         """
-        if is_call_of(node.value, "First"):
-            return self.visit_Attribute_Of_First(node.value.args[0], node.attr)  # type: ignore
-
+        # Look at what the value turns into: a variable may stand for a `First(...)` call.
         visited_value = self.visit(node.value)
+        if is_call_of(visited_value, "First"):
+            return self.visit_Attribute_Of_First(
+                visited_value.args[0], node.attr  # type: ignore
+            )
+
         if isinstance(visited_value, ast.Dict):
             found = self.visit_Subscript_Dict_with_value(visited_value, node.attr)
             if found is not None:
